@@ -64,6 +64,9 @@ def rows_for(quick):
             for pl in ([15] if quick else [15, 9, 1030]):
                 if n >= 0 and n <= 4 * 1024 * 1024:
                     rows.add((md, n, pl))
+    # every alignment of the last records against the end of the send buffer (legacy maxdata, one path)
+    for n in range(4096 - 80, 4096 + 12, 1 if not quick else 1):
+        rows.add((4096, n, 15))
     return sorted(rows)
 
 
